@@ -1202,6 +1202,66 @@ func c16r22(c *Ctx, r *Report) {
 	r.floor("bracketed arguments cut in parseActionList", n, 1)
 }
 
+// c10r17: $FZF_NTH (and what change-nth cycles through) is RangesToString of the parsed ranges; fed back into
+// --nth / change-nth it has to select the same fields. The only abbreviation it may make is `-1..` -> `-1`; the end
+// of a range is printed whatever its begin is (D110: `..end` was dropped for every range that begins at -1:
+// --nth=-1..-2, which selects nothing, was exported as FZF_NTH=-1, the last field).
+func c10r17(c *Ctx, r *Report) {
+	l := c.L
+	r.rule("C10-R17", "E (writer/reader agreement of the range syntax)", "P1",
+		"in RangesToString, the conversion of Range.end to text is not limited to ranges with a particular begin: its path conditions do not imply a comparison of Range.begin with a non-zero constant",
+		"a script that feeds $FZF_NTH back into change-nth / transform-nth selects other fields than the running fzf does")
+	fn := l.Fn("fzf", "RangesToString")
+	fB := l.Field("fzf", "Range", "begin")
+	fE := l.Field("fzf", "Range", "end")
+	if fn == nil || fB == nil || fE == nil {
+		r.unest("anchors", token.NoPos, nil, "anchors RangesToString / Range.begin / Range.end", "cannot resolve")
+		return
+	}
+	pc := pathConds(fn)
+	n := 0
+	eachInstr(fn, func(in ssa.Instruction) {
+		call, ok := in.(*ssa.Call)
+		if !ok || calleeName(call.Common()) != "strconv.Itoa" {
+			return
+		}
+		if f, _ := loadedField(call.Call.Args[0]); f != fE {
+			return
+		}
+		// limited = every path has found Range.begin (un)equal to one non-zero constant, with one and the same outcome
+		limited, reach := false, true
+		for _, wantNE := range []bool{true, false} {
+			h, rc := pc.Implies(call.Block(), func(lits []Lit) bool {
+				for _, lt := range lits {
+					x, op, k, ok := cmpInt(lt.Atom)
+					if !ok || k == 0 || (op != token.EQL && op != token.NEQ) {
+						continue
+					}
+					if f, _ := loadedField(x); f != fB {
+						continue
+					}
+					if ((op == token.NEQ) == lt.Val) == wantNE {
+						return true
+					}
+				}
+				return false
+			})
+			reach = rc
+			if h && rc {
+				limited = true
+			}
+		}
+		if !reach {
+			return
+		}
+		// the plain `begin == end` case prints one number; it is not the range form
+		n++
+		r.check(!limited, fmt.Sprintf("%s:end of a range #%d is printed for every begin", relName(fn), n), call.Pos(), fn,
+			"no restriction on Range.begin", "the end of a range is printed only for some values of its begin: the text does not parse back to the same range")
+	})
+	r.floor("places where RangesToString prints Range.end", n, 1)
+}
+
 func round11(c *Ctx, r *Report, prop string) {
 	switch prop {
 	case "C01":
@@ -1232,6 +1292,7 @@ func round11(c *Ctx, r *Report, prop string) {
 	case "C10":
 		c10r15(c, r)
 		c10r16(c, r)
+		c10r17(c, r)
 	case "C11":
 		c11r26(c, r)
 		c11r27(c, r)
